@@ -1376,6 +1376,8 @@ func CheckC16(c *Ctx) {
 			c.Distinct.Add(HashBytes(44, list[i]))
 		})
 	}
+	// pairs of objects whose packed bytes collide under a common 32-bit hash (collide.go), named back to back
+	objCollisionPairs(c, api, func(w *Worker, a spec.Assign, i int) { check(w, a, i%NStyles, "object-collision-pair") })
 	// none, all
 	c.Parallel("none-all", 6, 1, func(w *Worker, i int) {
 		a := baseBG(w.R, i%3)
